@@ -92,6 +92,20 @@ func c07Recipe(recipe string) []byte {
 		}
 		body := append([]byte{byte(a)<<2 | 3, byte(n >> 16), byte(n >> 8), byte(n)}, pay...)
 		return wrapMsg(body)
+	case "texts": // a list of a distinct ASCII items of 6 characters, in ascending (b=0), descending (b=1) or shuffled (b=2) order
+		body := []byte{0x03, byte(a >> 16), byte(a >> 8), byte(a)}
+		for i := 0; i < a; i++ {
+			v := i
+			switch b {
+			case 1:
+				v = a - 1 - i
+			case 2:
+				v = int((uint64(i)*2654435761 + 12345) % uint64(a)) // a fixed scramble (collisions only make some texts equal)
+			}
+			body = append(body, 0x41, 0x06)
+			body = append(body, []byte(fmt.Sprintf("%06d", v))...)
+		}
+		return wrapMsg(body)
 	case "prefixed": // an outer list holding a complete list of a one-byte items, then (b>>1) nested list headers that each
 		// declare a elements (b&1 = 0) or as many as the bytes behind them allow (b&1 = 1), then 2a filler bytes
 		depth, greedy := b>>1, b&1 == 1
@@ -256,6 +270,14 @@ func c07Jobs(c *ctx) (small []iso.Job, large []iso.Job) {
 					small = append(small, j)
 				}
 			}
+		}
+	}
+	// many different small items in one message, in ascending, descending and shuffled order (bookkeeping per distinct
+	// value must not depend on the order of arrival)
+	for _, n := range []int{2000, c.pick(8000, 60000)} {
+		for order := 0; order < 3; order++ {
+			r := fmt.Sprintf("texts %d %d", n, order)
+			large = append(large, iso.Job{Input: c07Recipe(r), Family: "many-distinct-texts", Meta: r})
 		}
 	}
 	// (b) long legitimate items
@@ -425,6 +447,20 @@ func runC07(c *ctx) {
 	// the same few inputs again and again in one worker process: what one call allocates must not depend on what earlier
 	// calls left behind (pooled parsers, scratch stacks, caches) - same per-call bound, the workload supplies the history
 	var history []iso.Job
+	// a long run of pairwise different tiny messages first (a table that grows with everything ever decoded shows in the
+	// one call that makes it grow, and in what stays reachable at the end)
+	for i := 0; i < c.pick(150000, 600000); i++ {
+		var body []byte
+		switch i % 3 {
+		case 0:
+			body = []byte{0xB1, 0x04, byte(i >> 24), byte(i >> 16), byte(i >> 8), byte(i)}
+		case 1:
+			body = append([]byte{0x41, 0x07}, []byte(fmt.Sprintf("%07d", i))...)
+		default:
+			body = []byte{0x01, 0x02, 0xA9, 0x02, byte(i >> 8), byte(i), 0x21, 0x02, byte(i >> 16), byte(i >> 8)}
+		}
+		history = append(history, iso.Job{Input: wrapMsg(body), Family: "distinct-small-messages-in-one-process", Meta: "distinct"})
+	}
 	for _, in := range c07HistoryInputs() {
 		for k := 0; k < c.pick(2500, 12000); k++ {
 			history = append(history, iso.Job{Input: in, Family: "repeat-in-one-process", Meta: "repeat"})
@@ -470,7 +506,7 @@ func runC07(c *ctx) {
 			c.Sample(map[string]interface{}{"family": j.Family, "len": len(j.Input), "input": hex.EncodeToString(clipB(j.Input))})
 		}
 	}
-	c.Required = []string{"hook-H3-reached", "family/declared-vs-present", "family/single-point-fault", "family/long-item", "family/long-item-payload-patterns", "family/many-small-items", "family/generated-tree", "family/closed-chain", "family/nest-with-leaf-per-level", "family/nest-around-a-large-item", "family/greedy-nested-lists", "family/random", "family/repeat-in-one-process", "family/legit-prefix-then-hostile-tail", "accepted", "rejected"}
+	c.Required = []string{"hook-H3-reached", "family/declared-vs-present", "family/single-point-fault", "family/long-item", "family/long-item-payload-patterns", "family/many-small-items", "family/generated-tree", "family/closed-chain", "family/nest-with-leaf-per-level", "family/nest-around-a-large-item", "family/greedy-nested-lists", "family/random", "family/repeat-in-one-process", "family/distinct-small-messages-in-one-process", "family/many-distinct-texts", "family/legit-prefix-then-hostile-tail", "accepted", "rejected"}
 }
 
 // c07HistoryInputs: messages that are refused after part of their content was decoded (in a list, in a nested list,
